@@ -320,35 +320,47 @@ def insertHole (h : List Node) : List (List Node) → List (List Node)
 
 def sortHoles (hs : List (List Node)) : List (List Node) := hs.foldl (fun acc h => insertHole h acc) []
 
-/-- first loop of `find_hole_bridge`: (qx, index of m, touched) -/
-def bridgeScan (hx hy : Rat) (ring : List Node) : Option (Rat × Nat × Bool) :=
+/-- first loop of `find_hole_bridge`: ((qx, index of m, early return), touch).  The loop returns early when the hole point is the
+vertex `p.next` of the outer ring (`if hole == p.next: return p.next`, fix 6e5a41fe8, as in earcut 3.0) or when the ray
+touches a segment (`x == hx`).  `touch`: the leftmost end point of the first segment that contains the hole point without being
+intersected by the ray (fix 13723478a and its generalisation 0f325b9d9); it is used after the loop when no early return happened. -/
+def bridgeScan (hole : Node) (ring : List Node) : Option (Rat × Nat × Bool) × Option Nat :=
   let n := ring.length
-  ((List.range n).zip (cyclicPairs ring)).foldl (fun (st : Option (Rat × Nat × Bool)) e =>
+  let hx := hole.x
+  let hy := hole.y
+  ((List.range n).zip (cyclicPairs ring)).foldl (fun (acc : Option (Rat × Nat × Bool) × Option Nat) e =>
+    let st := acc.1
     match st with
-    | some (_, _, true) => st
+    | some (_, _, true) => acc
     | _ =>
       let p := e.2.1
       let pn := e.2.2
-      if PolygonKernels.bridgeHit hy p.x p.y pn.x pn.y then
+      if nodeEq hole pn then (some (hx, (e.1 + 1) % n, true), acc.2)
+      else if PolygonKernels.bridgeHit hy p.x p.y pn.x pn.y then
         let x := PolygonKernels.bridgeX hy p.x p.y pn.x pn.y
-        let acc := match st with
+        let ok := match st with
           | none => PolygonKernels.bridgeAcceptFirst hx x
           | some (qx, _, _) => PolygonKernels.bridgeAccept hx x qx
-        if acc then
+        if ok then
           let m := if PolygonKernels.bridgePickP p.x p.y pn.x pn.y then e.1 else (e.1 + 1) % n
-          some (x, m, PolygonKernels.bridgeTouch x hx)
-        else st
-      else st) none
+          (some (x, m, PolygonKernels.bridgeTouch x hx), acc.2)
+        else acc
+      else if acc.2.isNone && PolygonKernels.bridgeOnSegment hole.x hole.y p.x p.y pn.x pn.y then
+        (st, some (if PolygonKernels.bridgePickPH p.x p.y pn.x pn.y then e.1 else (e.1 + 1) % n))
+      else acc) (none, none)
 
 /-- `find_hole_bridge(hole, outer_node)`: steps from the cursor of the outer ring to the bridge node -/
 def findHoleBridge (hole : Node) (ring : List Node) : Option Nat :=
   let n := ring.length
   let hx := hole.x
   let hy := hole.y
-  match bridgeScan hx hy ring with
-  | none => none
-  | some (_, m0, true) => some m0
-  | some (qx, m0, false) =>
+  if n > 0 ∧ nodeEq hole (nth ring 0) then some 0   -- `if hole == p: return p` before the loop
+  else
+  match bridgeScan hole ring with
+  | (some (_, m0, true), _) => some m0
+  | (_, some t) => some t
+  | (none, none) => none
+  | (some (qx, m0, false), none) =>
     let stop := nth ring m0
     let mx := stop.x
     let my := stop.y
@@ -481,13 +493,17 @@ def pipLoop (x y absTol : Rat) (p1 : Pt) : List Pt → Bool → Option Bool
     if PolygonKernels.pipOnEdge x y p1.x p1.y p2.x p2.y absTol then none
     else pipLoop x y absTol p2 rest (if PolygonKernels.pipToggle x y p1.x p1.y p2.x p2.y then !inside else inside)
 
+/-- `if polygon[0].isclose(polygon[-1]): polygon = polygon[:-1]` -/
+def pipRing (polygon : List Pt) : List Pt :=
+  match polygon with
+  | p :: q :: t => if ptClose p (lastPt q t) PolygonKernels.iscloseAbsTol then polygon.dropLast else polygon
+  | _ => polygon
+
 /-- `is_point_in_polygon_2d(point, polygon, abs_tol)`: +1 inside, 0 boundary, -1 outside -/
 def pointInPolygon (pt : Pt) (polygon : List Pt) (absTol : Rat) : Int :=
   if polygon.length < 3 then -1
   else
-    let poly := match polygon with
-      | p :: q :: t => if ptClose p (lastPt q t) PolygonKernels.iscloseAbsTol then polygon.dropLast else polygon
-      | _ => polygon
+    let poly := pipRing polygon
     match poly with
     | p :: q :: r :: t =>
       match pipLoop pt.x pt.y absTol (lastPt r t) poly false with
@@ -495,6 +511,45 @@ def pointInPolygon (pt : Pt) (polygon : List Pt) (absTol : Rat) : Int :=
       | some true => 1
       | some false => -1
     | _ => -1
+
+/-! ## construct2d.is_convex_polygon_2d (after fix 4fe7d128a) -/
+
+/-- `Vec2.isclose(other)` with its default tolerances -/
+def closeDefault (p q : Pt) : Bool := ptClose p q PolygonKernels.iscloseAbsTol
+
+/-- `index = len(polygon) - 2; while index > 0 and polygon[index].isclose(prev): index -= 1; prev_prev = polygon[index]`;
+the list argument is `polygon[len-2], …, polygon[0]` -/
+def convexSeed (prev : Pt) : List Pt → Pt
+  | [] => prev
+  | [q] => q
+  | q :: r :: rest => if closeDefault q prev then convexSeed prev (r :: rest) else q
+
+/-- the `for vertex in polygon` loop; `g` = `global_sign` -/
+def convexLoop (strict : Bool) (eps : Rat) : Pt → Pt → Rat → List Pt → Bool
+  | _, _, g, [] => decide (g ≠ 0)
+  | pp, p, g, v :: rest =>
+    if closeDefault v p then convexLoop strict eps pp p g rest
+    else
+      let det := PolygonKernels.convexDet p.x p.y v.x v.y pp.x pp.y
+      if PolygonKernels.convexSignificant det eps then
+        let cur := PolygonKernels.convexSign det
+        let g' := if g = 0 then cur else g
+        if g' ≠ cur then false else convexLoop strict eps p v g' rest
+      else if strict then false else convexLoop strict eps p v g rest
+
+/-- `is_convex_polygon_2d(polygon, strict=strict, epsilon=eps)` -/
+def isConvexPolygon (strict : Bool) (eps : Rat) (polygon : List Pt) : Bool :=
+  if polygon.length < 3 then false
+  else match polygon.reverse with
+    | last :: before => convexLoop strict eps (convexSeed last before) last 0 polygon
+    | [] => false
+
+/-- the corners `(prev_prev, prev, vertex)` the loop evaluates (coincident vertices are skipped) -/
+def convexCorners : Pt → Pt → List Pt → List (Pt × Pt × Pt)
+  | _, _, [] => []
+  | pp, p, v :: rest => if closeDefault v p then convexCorners pp p rest else (pp, p, v) :: convexCorners p v rest
+
+def cornerDet (c : Pt × Pt × Pt) : Rat := PolygonKernels.convexDet c.2.1.x c.2.1.y c.2.2.x c.2.2.y c.1.x c.1.y
 
 /-! ## Sutherland-Hodgman: ConvexClippingPolygon2d -/
 
@@ -555,6 +610,57 @@ def clipLineConvex (clip : List Pt) (absTol : Rat) (s e : Pt) : Option (Pt × Pt
   match clip with
   | [] => some (s, e)
   | c :: cs => clipLineGo absTol (lastPt c cs) (c :: cs) s e
+
+/-! ## ConcaveClippingPolygon2d.clip_polygon: the branch for "Greiner-Hormann returned no part" -/
+
+/-- `ConcaveClippingPolygon2d.__init__`: the stored `_clipping_polygon`; `none` = ValueError -/
+def mkConcaveClip (vertices : List Pt) (absTol : Rat) : Option (List Pt) :=
+  let clip := popClosing vertices absTol
+  if clip.length < 3 then none else some clip
+
+/-- mid points of the edges of the closed polygon `v`: `a.lerp(b) for a, b in zip(v, v[1:] + v[:1])` -/
+def edgeMids (v : List Pt) : List Pt :=
+  match v with
+  | [] => []
+  | p :: ps => (v.zip (ps ++ [p])).map (fun e => ⟨e.1.x + (e.2.x - e.1.x) * (1 / 2), e.1.y + (e.2.y - e.1.y) * (1 / 2)⟩)
+
+/-- `clip_polygon(polygon)` when the bounding boxes overlap and `clip_arbitrary_polygons` returns no part (the boundaries do not
+cross properly): `none` = nothing is returned, `some v` = the whole subject (without its closing vertex) is returned.
+The decision is the regenerated kernel `concaveFallbackOutside` applied to the point-in-polygon codes of the subject vertices and
+of the mid points of the subject edges (fix c773d3f04). -/
+def concaveNoPart (clip : List Pt) (absTol : Rat) (subject : List Pt) : Option (List Pt) :=
+  let vertices := popClosing subject absTol
+  if vertices.length < 3 then none
+  else if PolygonKernels.concaveFallbackOutside (vertices.map (fun v => pointInPolygon v clip absTol))
+      ((edgeMids vertices).map (fun v => pointInPolygon v clip absTol)) then none
+  else some vertices
+
+/-! ## Greiner-Hormann (`GHPolygon.clip`), phase 2: entry/exit marks, and which boundary pieces phase 3 walks -/
+
+/-- `for v in polygon: if v.intersect: v.entry = entry; entry = not entry`; the list holds `v.intersect` of the nodes in ring
+order starting at `polygon.first`; `none` = ordinary vertex (its `entry` attribute is not used) -/
+def ghMark (entry : Bool) : List Bool → List (Option Bool)
+  | [] => []
+  | true :: rest => some entry :: ghMark (!entry) rest
+  | false :: rest => none :: ghMark entry rest
+
+/-- `s_entry ^= is_inside_polygon(self.first.vtx, clip)` followed by the marking loop -/
+def ghPhase2 (opEntry inside : Bool) (isect : List Bool) : List (Option Bool) := ghMark (opEntry != inside) isect
+
+def ghLastSome : List (Option Bool) → Option Bool
+  | [] => none
+  | some e :: rest => (ghLastSome rest).orElse (fun _ => some e)
+  | none :: rest => ghLastSome rest
+
+/-- phase 3 leaves an intersection node forwards when its mark is `entry` (`if current.entry: current = current.next …`): an
+ordinary vertex is part of the result when the piece it lies on is walked, i.e. when the mark of the closest intersection node
+before it (cyclically; `cur` = the mark carried along) is `true`.  One Boolean per ordinary vertex, in ring order. -/
+def ghUsedGo (cur : Option Bool) : List (Option Bool) → List Bool
+  | [] => []
+  | some e :: rest => ghUsedGo (some e) rest
+  | none :: rest => (cur == some true) :: ghUsedGo cur rest
+
+def ghUsed (marks : List (Option Bool)) : List Bool := ghUsedGo (ghLastSome marks) marks
 
 /-! ## Cohen-Sutherland -/
 
@@ -679,5 +785,57 @@ def leftTurn (o a b : Pt) : Prop := 0 < PolygonKernels.hullCross o.x o.y a.x a.y
 def turnsOkFrom (floor : Nat) : List Pt → Prop
   | b :: a :: o :: t => (floor ≤ t.length + 2 → leftTurn o a b) ∧ turnsOkFrom floor (a :: o :: t)
   | _ => True
+
+/-- the cross product of `convex_hull_2d`: positive when `o, a, b` make a left turn -/
+def hcross (o a b : Pt) : Rat := PolygonKernels.hullCross o.x o.y a.x a.y b.x b.y
+
+/-- consecutive pairs of a vertex list: the directed edges of the open path -/
+def pairsOf : List Pt → List (Pt × Pt)
+  | a :: b :: t => (a, b) :: pairsOf (b :: t)
+  | _ => []
+
+/-- consecutive triples of a vertex list: the corners of the open path -/
+def triplesOf : List Pt → List (Pt × Pt × Pt)
+  | a :: b :: c :: t => (a, b, c) :: triplesOf (b :: c :: t)
+  | _ => []
+
+/-- `a < b` in the order of `Vec2.__lt__` (by x, then by y) -/
+def lexLt (a b : Pt) : Prop := a.x < b.x ∨ (a.x = b.x ∧ a.y < b.y)
+def lexLe (a b : Pt) : Prop := lexLt a b ∨ a = b
+
+/-- all points on one line (any three are collinear) -/
+def allCollinear (pts : List Pt) : Prop := ∀ a ∈ pts, ∀ b ∈ pts, ∀ c ∈ pts, hcross a b c = 0
+
+/-- exact winding number (crossing rule of the upward/downward edges of the horizontal ray to the right):
++1 for an edge that crosses the ray line upwards with the point strictly left of it, -1 downwards with the point right -/
+def wnStep (p a b : Pt) : Int :=
+  if a.y ≤ p.y then (if p.y < b.y ∧ 0 < sideOf a b p then 1 else 0)
+  else (if b.y ≤ p.y ∧ sideOf a b p < 0 then -1 else 0)
+
+def windingGo (p : Pt) (a : Pt) : List Pt → Int
+  | [] => 0
+  | b :: rest => wnStep p a b + windingGo p b rest
+
+/-- winding number of the closed polygon `poly` around `p` (`p` not on the boundary) -/
+def windingNumber (p : Pt) (poly : List Pt) : Int :=
+  match poly with
+  | [] => 0
+  | v :: vs => windingGo p (lastPt v vs) (v :: vs)
+
+/-- `p` lies on the closed segment `a b` -/
+def onSegment (a b p : Pt) : Prop :=
+  sideOf a b p = 0 ∧ min a.x b.x ≤ p.x ∧ p.x ≤ max a.x b.x ∧ min a.y b.y ≤ p.y ∧ p.y ≤ max a.y b.y
+
+/-- shoelace sum of an open vertex path relative to the origin `o`: `Σ (p - o) × (q - o)` over consecutive vertices -/
+def fanGo (o : Pt) (prev : Pt) : List Pt → Rat
+  | [] => 0
+  | q :: qs => sideOf o prev q + fanGo o q qs
+
+/-- twice the signed area of the closed polygon `l` (counter-clockwise positive), computed as a fan around `o`;
+independent of `o` (`Props.C19.fanArea_origin`) -/
+def fanArea (o : Pt) (l : List Pt) : Rat :=
+  match l with
+  | [] => 0
+  | v :: vs => fanGo o (lastPt v vs) (v :: vs)
 
 end EzdxfVerif.Polygon
